@@ -426,7 +426,7 @@ func main() {
 		minPath := filepath.Join(scratch, "min.json")
 
 		{
-			env := workerEnv("SIM_MODE=shrink", "SIM_IN="+failPath, "SIM_OUT="+minPath)
+			env := workerEnv("SIM_MODE=shrink", "SIM_IN="+failPath, "SIM_OUT="+minPath, "SIM_KNOWN="+knownPath)
 			if cfg.Race {
 				// every candidate is judged in a process of its own (the detector reports a
 				// pair of stacks once per process): fewer trials
@@ -462,7 +462,7 @@ func main() {
 
 		// replay in a fresh process: same rule, same event log
 		repOut := filepath.Join(scratch, "replay.json")
-		out, _ := run(scratch, workerEnv("SIM_MODE=replay", "SIM_IN="+replayPath, "SIM_OUT="+repOut), bin, "-test.run", "TestSim", "-test.timeout", "0")
+		out, _ := run(scratch, workerEnv("SIM_MODE=replay", "SIM_IN="+replayPath, "SIM_OUT="+repOut, "SIM_KNOWN="+knownPath), bin, "-test.run", "TestSim", "-test.timeout", "0")
 
 		var rep struct {
 			Reproduced bool `json:"reproduced"`
